@@ -4,6 +4,7 @@ package main
 
 import (
 	"fmt"
+	"go/constant"
 	"sort"
 	"strings"
 
@@ -214,7 +215,41 @@ func (m *Model) returnTokenClasses(c *ssa.Call, idx int, d int, seen map[ssa.Val
 }
 
 // allPathsEstablish: every path into b passes an edge on which pred holds (looking through join blocks).
-func allPathsEstablish(b *ssa.BasicBlock, pred func(Fact) bool, depth int) bool {
+func allPathsEstablish(b *ssa.BasicBlock, pred0 func(Fact) bool, depth int) bool {
+	// a fact on a named boolean (`flag := a || b; if flag`) is a fact on a phi: it establishes pred when every
+	// incoming edge that can give the phi that value does
+	var pred func(Fact) bool
+	pred = func(f Fact) bool {
+		if pred0(f) {
+			return true
+		}
+		phi, ok := f.Cond.(*ssa.Phi)
+		if !ok || !isBoolT(phi.Type()) || depth > 6 {
+			return false
+		}
+		for i, e := range phi.Edges {
+			pb := phi.Block().Preds[i]
+			if k, isK := e.(*ssa.Const); isK && k.Value != nil {
+				if constant.BoolVal(k.Value) != f.Holds {
+					continue // this edge cannot give the phi that value
+				}
+				okEdge := false
+				for _, ef := range expandFacts(edgeFact(pb, phi.Block())) {
+					if pred0(ef) {
+						okEdge = true
+					}
+				}
+				if !okEdge && !allPathsEstablish(pb, pred0, depth+1) {
+					return false
+				}
+				continue
+			}
+			if !pred(Fact{Cond: e, Holds: f.Holds}) {
+				return false
+			}
+		}
+		return true
+	}
 	for _, f := range expandFacts(factsAt(b)) {
 		if pred(f) {
 			return true
